@@ -252,7 +252,7 @@ def k2(prog, ctx):
     ctx.floor("K2", "armed splice-site comparison functions", n, 2)
 
 
-def k3(prog, ctx):
+def k3(prog, ctx, tag="K3"):
     """CANONICAL_REV_SITES must be exactly the reverse complement of CANONICAL_FWD_SITES."""
     m = prog.module("src/common.py")
     fwd, rev = m.assigns.get("CANONICAL_FWD_SITES"), m.assigns.get("CANONICAL_REV_SITES")
@@ -267,16 +267,16 @@ def k3(prog, ctx):
     rc = lambda s_: "".join(comp[c] for c in reversed(s_))
     want = {(rc(r), rc(l)) for l, r in F}
     for pair in sorted(want - R):
-        ctx.fail("K3", rev, "<module>", "CANONICAL_REV_SITES lacks %s" % (pair,),
+        ctx.fail(tag, rev, "<module>", "CANONICAL_REV_SITES lacks %s" % (pair,),
                  "the minus-strand table lacks %s, the reverse complement of forward pair %s: such introns get no strand and "
                  "Canonical=False" % (pair, (rc(pair[1]), rc(pair[0]))))
     for pair in sorted(R - want):
-        ctx.fail("K3", rev, "<module>", "CANONICAL_REV_SITES has %s" % (pair,),
+        ctx.fail(tag, rev, "<module>", "CANONICAL_REV_SITES has %s" % (pair,),
                  "minus-strand pair %s is not the reverse complement of any forward canonical pair" % (pair,))
     if want == R:
-        ctx.ok("K3", "src/common.py:%d" % rev.lineno, "REV table == reverse complement of FWD table: %s" % sorted(R))
+        ctx.ok(tag, "src/common.py:%d" % rev.lineno, "REV table == reverse complement of FWD table: %s" % sorted(R))
     if any(x != x.upper() for p_ in F | R for x in p_):
-        ctx.fail("K3", fwd, "<module>", "canonical tables", "canonical tables contain lower-case entries but comparisons upper-case the reference")
+        ctx.fail(tag, fwd, "<module>", "canonical tables", "canonical tables contain lower-case entries but comparisons upper-case the reference")
     ctx.extra["exhaustive"] = True
 
 
